@@ -129,6 +129,22 @@ def pde_model_table_observation(c, range_kind, time_obs):
     c.eq('table_column_at_a_coinciding_time_is_the_solution_level', table[:, k], np.asarray(sol)[:, 1], tol=1e-7)
 
 
+def matrix_valued_solver(c, n=4):
+    """'all linear solvers': a user solver built on numpy matrix objects (np.asmatrix(A).I * b and the like hand the solution back as a 1 x N row or an
+    N x 1 column matrix, with or without extra return values): every unknown of the returned solution is there and the solution satisfies the assembled
+    system (bounded stand-in: native)"""
+    A = np.array([[(3.0 + abs(c.real(f'a{i}'))) if i == j else c.real(f'A{i}{j}', lo=-0.5, hi=0.5) for j in range(n)] for i in range(n)])
+    f = np.array([c.real(f'f{i}') for i in range(n)])
+    for nm, solver in (('row_matrix', lambda M, b: np.asmatrix(np.linalg.solve(M, b))), ('column_matrix', lambda M, b: np.asmatrix(np.linalg.solve(M, b)).T),
+                       ('row_matrix_with_extra_return', lambda M, b: (np.asmatrix(np.linalg.solve(M, b)), 'info'))):
+        pde = SteadyStateLinearPDE(lambda p: (A * (1 + p[0] ** 2), f + p[1]), linalg_solve=solver)
+        th = np.array([c.real('th0'), c.real('th1')])
+        pde.assemble(th); u, info = pde.solve()
+        uv = np.asarray(u, dtype=float).reshape(-1)
+        c.holds(f'{nm}:solution_has_one_entry_per_unknown', uv.size == n, note=f"{uv.size} entries for {n} unknowns")
+        if uv.size == n: c.eq(f'{nm}:returned_solution_satisfies_the_assembled_system', (A * (1 + th[0] ** 2)) @ uv, f + th[1], tol=1e-9)
+
+
 def steady_observe(c, n=3, same_grid=True, obsmap=True):
     A, f, _ = _form(c, n)
     grid = np.linspace(0, 1, n); gobs = grid if same_grid else np.linspace(0.1, 0.9, 2)
@@ -377,4 +393,5 @@ def jobs(tier):
         for to in ('all', 'explicit_pair'):
             J.append(Job(f'PDEModel:table_observation:range_geometry={rk}:time_obs={to}', lambda c, rk=rk, to=to: pde_model_table_observation(c, rk, to), 'B',
                          ['cuqi.model._model:PDEModel._forward_func'] + F('TimeDependentLinearPDE.observe'), nnum=3))
+    J.append(Job('LinearPDE.user_solver_returning_numpy_matrix_objects', matrix_valued_solver, 'B', F('LinearPDE._solve_linear_system', 'SteadyStateLinearPDE.solve'), nnum=3))
     return J
